@@ -162,7 +162,10 @@ Theorem C15_roundtrip_partial :
       (forall f, In f fs -> ~ In (f_id F f) ids0) ->
       exists c',
         import_all F parsef parse_int (save_all F fmtf fmt8 fs) (ids0, c0)
-        = (LOk fs, (ids0 ++ map (f_id F) fs, c')).
+        = (LOk fs, (ids0 ++ map (f_id F) fs, c'))
+        /\ (c0 <= c')%Z
+        /\ ((forall i, In i ids0 -> (i < c0)%Z) ->
+            forall i, In i (ids0 ++ map (f_id F) fs) -> (i < c')%Z).
 Proof. exact roundtrip_partial. Qed.
 Print Assumptions C15_roundtrip_partial.
 
@@ -202,7 +205,10 @@ Theorem C15_roundtrip_decimal :
       (forall f, In f fs -> ~ In (f_id F f) ids0) ->
       exists c',
         import_all F parsef parse_int_c (save_all F fmtf dec8 fs) (ids0, c0)
-        = (LOk fs, (ids0 ++ map (f_id F) fs, c')).
+        = (LOk fs, (ids0 ++ map (f_id F) fs, c'))
+        /\ (c0 <= c')%Z
+        /\ ((forall i, In i ids0 -> (i < c0)%Z) ->
+            forall i, In i (ids0 ++ map (f_id F) fs) -> (i < c')%Z).
 Proof. exact roundtrip_decimal. Qed.
 Print Assumptions C15_roundtrip_decimal.
 
@@ -227,9 +233,39 @@ Theorem C15_roundtrip_renumber :
         /\ Forall2 (same_but_id F) fs fs'
         /\ NoDup (map (f_id F) fs')
         /\ (forall g, In g fs' -> ~ In (f_id F g) ids0)
-        /\ fst r' = ids0 ++ map (f_id F) fs'.
+        /\ fst r' = ids0 ++ map (f_id F) fs'
+        /\ (forall i, In i (fst r') -> (i < snd r')%Z) /\ (c0 <= snd r')%Z.
 Proof. exact roundtrip_renumber. Qed.
 Print Assumptions C15_roundtrip_renumber.
+
+(* The registry after an import satisfies the hypothesis of C15_copy_new_id and of
+   C15_roundtrip_renumber again: copy() of any imported filter gets an unused
+   identifier, and importing the same file a second time returns all filters
+   under further unused, distinct identifiers. *)
+Theorem C15_import_then_copy_or_import :
+  forall (F : Type) (fmtf : F -> str) (parsef : str -> option F)
+         (fmt8 : Z -> str) (parse_int : str -> option Z),
+    (forall v, parsef (fmtf v) = Some v) ->
+    (forall v, token_ok (fmtf v) = true) ->
+    (forall n, (0 <= n)%Z -> parse_int (fmt8 n) = Some n) ->
+    (forall n, (0 <= n)%Z -> digits_ok (fmt8 n) = true) ->
+    forall (fs : list (pfilter F)) (ids0 : list Z) (c0 : Z),
+      Forall (fun f => wf_filter f = true) fs ->
+      (forall i, In i ids0 -> (i < c0)%Z) ->
+      exists fs' r',
+        import_all F parsef parse_int (save_all F fmtf fmt8 fs) (ids0, c0) = (LOk fs', r')
+        /\ Forall2 (same_but_id F) fs fs'
+        /\ (forall g b, In g fs' ->
+              let '(h, r2) := pf_copy g b r' in
+              ~ In (f_id F h) (fst r') /\ fst r2 = fst r' ++ [f_id F h]
+              /\ (forall i, In i (fst r2) -> (i < snd r2)%Z))
+        /\ exists fs2 r2,
+              import_all F parsef parse_int (save_all F fmtf fmt8 fs) r' = (LOk fs2, r2)
+              /\ Forall2 (same_but_id F) fs fs2
+              /\ NoDup (map (f_id F) fs2)
+              /\ (forall g, In g fs2 -> ~ In (f_id F g) (fst r')).
+Proof. exact import_then_copy_or_import. Qed.
+Print Assumptions C15_import_then_copy_or_import.
 
 (* The guard on names cannot be dropped (finding C15-name-blanks): a name with
    a leading blank is reloaded without it, a name with a line break makes
